@@ -72,26 +72,54 @@ def _is_next_event(e: ast.AST) -> bool:
     return isinstance(e, ast.Call) and isinstance(e.func, ast.Attribute) and e.func.attr == "next_event" and not e.args
 
 
+def _terminal_test(test: ast.expr, evname: Optional[str]) -> Optional[Tuple[str, ast.expr]]:
+    """`not isinstance(<event or event := next_event()>, (<classes>))` -> (event variable, classes expression)"""
+    if isinstance(test, ast.UnaryOp) and isinstance(test.op, ast.Not) and isinstance(test.operand, ast.Call) and isinstance(test.operand.func, ast.Name) \
+            and test.operand.func.id == "isinstance" and len(test.operand.args) == 2:
+        a0 = test.operand.args[0]
+        if isinstance(a0, ast.NamedExpr) and isinstance(a0.target, ast.Name) and _is_next_event(a0.value):
+            return a0.target.id, test.operand.args[1]
+        if isinstance(a0, ast.Name) and (evname is None or a0.id == evname):
+            return a0.id, test.operand.args[1]
+    return None
+
+
 def _find_loop(p: Program, fn: FuncInfo):
-    """(loop node, handling statements, event variable, generator helper or None)"""
+    """(loop node, handling statements, event variable, generator helper or None, classes the loop test excludes or None)"""
+    pending_problem = None
     for lp in ast.walk(fn.node):
         if not isinstance(lp, (ast.While, ast.For, ast.AsyncFor)):
             continue
         for i, st in enumerate(lp.body):
             if isinstance(st, ast.Assign) and len(st.targets) == 1 and isinstance(st.targets[0], ast.Name) and _is_next_event(st.value):
-                if i != 0:
-                    raise _Undecided("statements before the event is fetched")
-                return lp, lp.body[1:], st.targets[0].id, None
+                ev = st.targets[0].id
+                if i == 0:
+                    return lp, lp.body[1:], ev, None, None
+                # rotated loop: `ev = next_event()` before the loop and as the last statement of its body, the test excludes the
+                # terminal events
+                if i == len(lp.body) - 1 and isinstance(lp, ast.While) and not lp.orelse:
+                    tt = _terminal_test(lp.test, ev)
+                    par = getattr(lp, "_parent", None)
+                    blk = next((getattr(par, f_) for f_ in ("body", "orelse", "finalbody") if isinstance(getattr(par, f_, None), list) and lp in getattr(par, f_)), None)
+                    prev = blk[blk.index(lp) - 1] if blk and blk.index(lp) > 0 else None
+                    if tt is not None and isinstance(prev, ast.Assign) and len(prev.targets) == 1 and isinstance(prev.targets[0], ast.Name) and prev.targets[0].id == ev and _is_next_event(prev.value) \
+                            and not any(isinstance(x, ast.Continue) for x in ast.walk(ast.Module(body=lp.body, type_ignores=[]))):
+                        return lp, lp.body[:-1], ev, None, tt[1]
+                pending_problem = "statements before the event is fetched"
+        if isinstance(lp, ast.While) and not lp.orelse:
+            tt = _terminal_test(lp.test, None)
+            if tt is not None and isinstance(lp.test.operand.args[0], ast.NamedExpr):
+                return lp, lp.body, tt[0], None, tt[1]
         if isinstance(lp, (ast.For, ast.AsyncFor)) and isinstance(lp.target, ast.Name) and isinstance(lp.iter, ast.Call):
             try:
                 g = p.resolve_call(fn, lp.iter)
             except Exception:
                 g = None
             if isinstance(g, FuncInfo) and g.is_generator() and default_inline(g) and any(_is_next_event(n) for n in ast.walk(g.node)):
-                return lp, lp.body, lp.target.id, g
+                return lp, lp.body, lp.target.id, g, None
         if isinstance(lp, ast.While) and isinstance(lp.test, ast.NamedExpr) and _is_next_event(lp.test.value):
             raise _Undecided("event fetched in the loop test")
-    raise _Undecided("no loop that fetches decoder events with next_event()")
+    raise _Undecided(pending_problem or "no loop that fetches decoder events with next_event()")
 
 
 class _Exits(ast.NodeTransformer):
@@ -130,8 +158,14 @@ class _Returns(ast.NodeTransformer):
         return ast.copy_location(ast.Return(value=ast.Constant(value="__RETURNS__")), node)
 
 
-def _synth(fn: FuncInfo, stmts: List[ast.stmt], rename: Dict[str, str], is_async: bool, is_gen_ok: bool) -> FuncInfo:
+def _synth(fn: FuncInfo, stmts: List[ast.stmt], rename: Dict[str, str], is_async: bool, is_gen_ok: bool, prologue: Optional[List[ast.stmt]] = None, excluded: Optional[ast.expr] = None, evname: str = "event") -> FuncInfo:
     body = [copy.deepcopy(s) for s in stmts]
+    if excluded is not None:
+        # the loop test has already excluded these classes: say so with a guard the engine turns into a fact
+        guard = ast.If(test=ast.Call(func=ast.Name(id="isinstance", ctx=ast.Load()), args=[ast.Name(id=evname, ctx=ast.Load()), copy.deepcopy(excluded)], keywords=[]),
+                       body=[ast.Break()], orelse=[])
+        body = [guard] + body
+    pro = [copy.deepcopy(s) for s in (prologue or [])]
     for s in body:
         for n in ast.walk(s):
             if hasattr(n, "_parent"):
@@ -140,10 +174,13 @@ def _synth(fn: FuncInfo, stmts: List[ast.stmt], rename: Dict[str, str], is_async
                 except Exception:
                     pass
     body = [_Exits().visit(s) for s in body]
+    body = pro + body
     body.append(ast.Return(value=ast.Constant(value="__CONTINUES__")))
     own = set(fn.params) | {n.id for n in ast.walk(fn.node) if isinstance(n, ast.Name) and isinstance(n.ctx, ast.Store)}
     mod = ast.Module(body=body, type_ignores=[])
-    used = sorted({n.id for n in ast.walk(mod) if isinstance(n, ast.Name) and n.id in own})
+    own |= {n.id for n in ast.walk(mod) if isinstance(n, ast.Name) and "__" in n.id and not n.id.startswith("__")}  # symbolic holder attributes of the prologue
+    assigned_in_prologue = {t.id for st_ in pro for t in ast.walk(st_) if isinstance(t, ast.Name) and isinstance(t.ctx, ast.Store)}
+    used = sorted({n.id for n in ast.walk(mod) if isinstance(n, ast.Name) and n.id in own and n.id not in assigned_in_prologue})
     for n in ast.walk(mod):
         if isinstance(n, ast.Name) and n.id in rename and n.id in own:
             n.id = rename[n.id]
@@ -155,7 +192,9 @@ def _synth(fn: FuncInfo, stmts: List[ast.stmt], rename: Dict[str, str], is_async
     ast.fix_missing_locations(node)
     from ..loader import set_parents
     set_parents(node)
-    return FuncInfo("_iteration", fn.qualname + "._iteration", fn.module, node, cls=None, parent=None)
+    fi = FuncInfo("_iteration", fn.qualname + "._iteration", fn.module, node, cls=None, parent=None)
+    fi._prologue_ids = {id(x) for st_ in pro for x in ast.walk(st_)}  # type: ignore[attr-defined]
+    return fi
 
 
 def _classes_of(x: Value) -> Optional[List[str]]:
@@ -179,24 +218,146 @@ def _role_text(t: str) -> str:
     return t
 
 
+def _holders(p: Program, fn: FuncInfo, loop: ast.AST):
+    """locals of the helper that hold an instance of a private class of the module, created before the event loop:
+    [(name, ClassInfo, constructor call)]"""
+    out = []
+    inside = {id(n) for n in ast.walk(loop)}
+    for n in walk_shallow(fn.node):
+        tgt = val = None
+        if isinstance(n, ast.Assign) and len(n.targets) == 1:
+            tgt, val = n.targets[0], n.value
+        elif isinstance(n, ast.AnnAssign) and n.value is not None:
+            tgt, val = n.target, n.value
+        if isinstance(tgt, ast.Name) and isinstance(val, ast.Call) and id(n) not in inside:
+            try:
+                r = p.resolve_call(fn, val)
+            except Exception:
+                r = None
+            from ..loader import ClassInfo
+            if isinstance(r, ClassInfo) and r.name.startswith("_") and not r.name.startswith("__") and r.module is fn.module:
+                out.append((tgt.id, r, val))
+    return out
+
+
+def _holder_prologue(p: Program, name: str, ci, ctor: ast.Call) -> List[ast.stmt]:
+    """`h = _C(args)` followed by `h.attr = h__attr` for every attribute that __init__ sets to something that is not one of
+    its parameters (a count starting at 0, an empty buffer, None): inside ONE iteration those attributes hold whatever the
+    previous iterations left there - a symbolic value - while attributes copied from the constructor's arguments (the limits)
+    are those arguments."""
+    pro: List[ast.stmt] = [ast.Assign(targets=[ast.Name(id=name, ctx=ast.Store())], value=copy.deepcopy(ctor), type_comment=None)]
+    init = p.find_method(ci, "__init__")
+    if init is None:
+        return pro
+    params = set(init.params[1:])
+    for n in ast.walk(init.node):
+        tg = val = None
+        if isinstance(n, ast.Assign) and len(n.targets) == 1:
+            tg, val = n.targets[0], n.value
+        elif isinstance(n, ast.AnnAssign) and n.value is not None:
+            tg, val = n.target, n.value
+        if isinstance(tg, ast.Attribute) and isinstance(tg.value, ast.Name) and tg.value.id == init.params[0]:
+            if isinstance(val, ast.Name) and val.id in params:
+                continue
+            pro.append(ast.Assign(targets=[ast.Attribute(value=ast.Name(id=name, ctx=ast.Load()), attr=tg.attr, ctx=ast.Store())],
+                                  value=ast.Name(id=f"{name}__{tg.attr}", ctx=ast.Load()), type_comment=None))
+    return pro
+
+
+def _subst(t, mapping):
+    if isinstance(t, tuple):
+        if t in mapping:
+            return mapping[t]
+        return tuple(_subst(x, mapping) for x in t)
+    return t
+
+
+def _infer_roles(paths, params: List[str]) -> Dict[str, str]:
+    """roles of the iteration function's variables from what is done with them (for variables that _roles could not name:
+    attributes of a holder object)"""
+    roles: Dict[str, str] = {}
+    EVD = ("attr", ("param", "event"), "data")
+    for pa in paths:
+        for e in pa.events:
+            if e.kind == "call" and e.a[0] == "attr" and e.a[1][0] == "param":
+                P, m = e.a[1][1], e.a[2]
+                if m in ("write", "awrite", "seek", "aseek"):
+                    roles.setdefault(P, "file")
+                elif m in ("extend", "append") and e.b and e.b[0] == EVD:
+                    roles.setdefault(P, "data")
+                elif m == "append" and e.b and e.b[0][0] == "tuple" and len(e.b[0][1]) == 2:
+                    roles.setdefault(P, "items")
+            if e.kind == "call" and e.a == ("func", "baize.utils:safe_decode") and e.b:
+                for t in subterms(e.b[0]):
+                    if t[0] == "param" and t[1] in params:
+                        roles.setdefault(t[1], "data")
+            if e.kind in ("local", "store"):
+                nm = e.a if e.kind == "local" else None
+                val = e.b
+                if nm and val == ("attr", ("param", "event"), "name"):
+                    roles.setdefault(nm, "field_name")
+                if nm and val[0] == "call" and val[1] == ("param", "file_factory"):
+                    roles.setdefault(nm, "file")
+                if nm and val[0] == "binop" and val[1] == "Add" and ("param", nm) in (val[2], val[3]):
+                    other = val[3] if val[2] == ("param", nm) else val[2]
+                    if other == ("const", 1):
+                        roles.setdefault(nm, "form_parts_count")
+                    elif other[0] == "call" and other[1] == ("builtin", "len") and other[2] == (EVD,):
+                        roles.setdefault(nm, "form_memory_size_count")
+    return roles
+
+
 def iteration(p: Program, fn: FuncInfo) -> Iteration:
     from .mp_common import _roles
 
     all_classes = event_classes(p)
     problems: List[str] = []
     try:
-        lp, stmts, evname, gen = _find_loop(p, fn)
+        lp, stmts, evname, gen, excluded = _find_loop(p, fn)
     except _Undecided as e:
         return Iteration(fn, [], {}, all_classes, "?", [str(e)])
     roles = dict(_roles(fn))
     roles[evname] = "event"
-    if gen is not None:
-        # the generator's own parameter that receives the parser keeps its role
-        pass
     is_async = isinstance(fn.node, ast.AsyncFunctionDef)
-    synth = _synth(fn, stmts, roles, is_async, False)
-    watch = sorted(set(synth.params))
-    paths, col, it = run_paths(p, synth, None, record_locals=watch, depth=4)
+    holders = _holders(p, fn, lp)
+    prologue: List[ast.stmt] = []
+    for hname, hci, hctor in holders:
+        prologue += _holder_prologue(p, hname, hci, hctor)
+    synth = _synth(fn, stmts, roles, is_async, False, prologue, excluded, evname)
+    watch = sorted(set(synth.params) | {roles.get(h[0], h[0]) for h in holders})
+    paths, col, it = run_paths(p, synth, None, record_locals=watch, depth=5)
+    # what the prologue did (creating the holder objects, seeding their attributes) is not part of the iteration
+    pro_ids = getattr(synth, "_prologue_ids", set())
+    if pro_ids:
+        for pa in paths:
+            k = 0
+            for e in pa.events:
+                node_, _f = col.nodes.get(e.tag, (None, None))
+                if (node_ is not None and id(node_) in pro_ids) or e.depth > 0:
+                    k += 1
+                else:
+                    break
+            pa.events = pa.events[k:]
+    # attribute stores on a holder object are rebindings of the symbolic variable that stands for that attribute
+    hold_cls = {hci.fq: roles.get(hname, hname) for hname, hci, _c in holders}
+    for pa in paths:
+        for e in pa.events:
+            if e.kind == "store" and e.a[0] == "attr" and e.a[1][0] == "obj" and e.a[1][1] in hold_cls:
+                e.kind, e.a = "local", f"{hold_cls[e.a[1][1]]}__{e.a[2]}"
+    inferred = _infer_roles(paths, list(synth.params) + [e.a for pa in paths for e in pa.events if e.kind == "local"])
+    have = set(roles.values())
+    mapping = {}
+    for nm, role in inferred.items():
+        if nm != role and role not in have and role not in synth.params:
+            mapping[("param", nm)] = ("param", role)
+            roles[nm] = role
+    # the limits: a holder attribute copied from a limit parameter IS that parameter (the prologue passed it through)
+    for pa in paths:
+        if mapping:
+            pa.events = [type(e)(e.kind, (mapping.get(("param", e.a), ("param", e.a))[1] if e.kind == "local" and isinstance(e.a, str) else _subst(e.a, mapping)),
+                                 _subst(e.b, mapping) if e.b is not None else None, _subst(e.c, mapping) if e.c is not None else None, e.tag, e.depth) for e in pa.events]
+            pa.facts = frozenset((_subst(f, mapping), t) for f, t in pa.facts)
+            pa.value = _subst(pa.value, mapping) if isinstance(pa.value, tuple) else pa.value
     EV = ("param", "event")
     FILE = ("param", "file")
     out: List[IterPath] = []
@@ -241,6 +402,8 @@ def iteration(p: Program, fn: FuncInfo) -> Iteration:
             raised = None
         out.append(IterPath(ex, raised, frozenset(cl), file_none, more, effects, list(pa.facts), final))
     source = "event = parser.next_event() at the top of the loop"
+    if excluded is not None:
+        source = "event fetched by the loop's own test / rotation (terminal events end the loop)"
     if gen is not None:
         source = f"events pulled from the generator {gen.name}()"
         problems += _check_generator(p, gen, all_classes)
@@ -250,12 +413,12 @@ def iteration(p: Program, fn: FuncInfo) -> Iteration:
 def _check_generator(p: Program, g: FuncInfo, all_classes: List[str]) -> List[str]:
     """The private generator must hand on every non-terminal event exactly once, in order, and stop at a terminal one."""
     try:
-        lp, stmts, evname, inner = _find_loop(p, g)
+        lp, stmts, evname, inner, excluded = _find_loop(p, g)
     except _Undecided as e:
         return [f"{g.name}: {e}"]
     if inner is not None:
         return [f"{g.name}: nested generator"]
-    synth = _synth(g, stmts, {evname: "event"}, isinstance(g.node, ast.AsyncFunctionDef), True)
+    synth = _synth(g, stmts, {evname: "event"}, isinstance(g.node, ast.AsyncFunctionDef), True, None, excluded, evname)
     paths, col, it = run_paths(p, synth, None)
     EV = ("param", "event")
     bad: List[str] = []
@@ -363,6 +526,11 @@ def helper_rules(p: Program, name: str, fn: FuncInfo) -> List[Finding]:
 
     EXT, WR = "data.extend(event.data)", "file.write(event.data)"
     APPF, CLR = "items.append((field_name, safe_decode(data, charset)))", "data.clear()"
+    DEC = "safe_decode(data, charset)"
+    # the field buffer may be a list of chunks joined at the flush instead of a bytearray: same obligations, other spelling
+    if any(t == "data.append(event.data)" for pa in paths for k, t, _v in pa.effects if k == "call"):
+        EXT = "data.append(event.data)"
+        APPF, DEC = "items.append((field_name, safe_decode(b''.join(data), charset)))", "safe_decode(b''.join(data), charset)"
     SEEK, APPU = "file.seek(0)", "items.append((field_name, file))"
     data_paths = [pa for pa in paths if pa.classes == frozenset({"Data"})]
     mixed = [pa for pa in paths if "Data" in pa.classes and pa.classes != frozenset({"Data"}) and not (pa.classes <= TERMINAL | {"Data"} and pa.exit != "continues")]
@@ -373,7 +541,7 @@ def helper_rules(p: Program, name: str, fn: FuncInfo) -> List[Finding]:
         # paths that raise stop where the limit was crossed: what they did before still has to follow the rules, what comes after is moot
         raising = pa.exit == "raises"
         n_ext, n_wr = len(pa.calls(EXT)), len(pa.calls(WR))
-        anyext = [t for k, t, _v in pa.effects if k == "call" and t.startswith("data.extend(")]
+        anyext = [t for k, t, _v in pa.effects if k == "call" and (t.startswith("data.extend(") or t.startswith("data.append("))]
         anywr = [t for k, t, _v in pa.effects if k == "call" and t.startswith("file.write(")]
         if pa.file_none is True or pa.file_none is None:
             if pa.file_none is None and (n_ext or n_wr):
@@ -407,8 +575,10 @@ def helper_rules(p: Program, name: str, fn: FuncInfo) -> List[Finding]:
                     bad("R1.4", f"missing: {APPF}", f"a field is flushed exactly on its last Data event - `{APPF}` does not happen exactly once there (got {flush_calls})")
                 elif c is None:
                     bad("R1.4", f"missing: {CLR}", f"the field accumulator is reset after the flush - `{CLR}` does not happen exactly once on the last Data event")
-                elif not (b_ < c) or (a is not None and not a < b_):
-                    bad("R1.4", "clear before append", "the accumulator is cleared before the field is appended (or the last bytes are added after the flush)")
+                elif (exactly(pa, DEC) is None or not exactly(pa, DEC) < c) or (a is not None and not a < exactly(pa, DEC)):
+                    # what matters is that the buffer is decoded before it is cleared (the decoded text is what gets appended,
+                    # before or after the clear) and that this event's bytes were added before the decode
+                    bad("R1.4", "clear before append", "the accumulator is cleared before the field is decoded for the append (or the last bytes are added after the flush)")
                 elif [t for t in flush_calls if t not in (APPF, CLR)]:
                     bad("R1.4", f"extra flush effects {flush_calls}", f"the last Data event of a field does more than append the field and clear the buffer: {flush_calls}")
                 else:
@@ -422,7 +592,9 @@ def helper_rules(p: Program, name: str, fn: FuncInfo) -> List[Finding]:
                     bad("R1.4", f"missing: {APPU}", f"an upload is appended exactly on its last Data event - `{APPU}` does not happen exactly once there (got {flush_calls})")
                 elif len(rs) != 1 or len(resets) != 1:
                     bad("R1.4", "missing: file = None", "the file slot is released after the upload - `file = None` does not happen exactly once on the last Data event")
-                elif not (s_ < b_ < rs[0]) or (a is not None and not a < s_):
+                elif not (s_ < b_ and s_ < rs[0]) or (a is not None and not a < s_):
+                    # (the appended pair holds the file object itself - the text of the append says so - whether the slot is
+                    # released before or after the append)
                     bad("R1.4", "seek/append/reset order", "upload is not rewound before it is appended, or the slot is reset too early (or bytes are written after the rewind)")
                 elif [t for t in flush_calls if t not in (SEEK, APPU)]:
                     bad("R1.4", f"extra flush effects {flush_calls}", f"the last Data event of an upload does more than rewind, append and release: {flush_calls}")
